@@ -147,6 +147,15 @@ pub fn run(t: &mut Toks) -> String {
         let v2: Voronoi = (&integ).into();
         out.push(format!("\"vor2\":{}", voronoi_json(&v2)));
         if opts & 4 != 0 {
+            // per-cell conversion path (ConvexCell::with_faces on a clone of one cell)
+            let per_cell: Vec<bool> = (0..n)
+                .filter_map(|i| integ.get_cell_at(i))
+                .map(|c| std::panic::catch_unwind(std::panic::AssertUnwindSafe(|| c.clone().with_faces().face_count())).is_err())
+                .collect();
+            out.push(format!(
+                "\"wf_cell_rejected\":{}",
+                json::arr(&per_cell, |b| if *b { "true".to_string() } else { "false".to_string() })
+            ));
             let r = std::panic::catch_unwind(std::panic::AssertUnwindSafe(|| {
                 let wf = integ.clone().with_faces();
                 let cells: Vec<String> = (0..n)
